@@ -4,12 +4,14 @@ import (
 	"context"
 	"crypto/tls"
 	"errors"
+	"fmt"
 	"io"
 	"log/slog"
 	"net"
 	"time"
 
 	"github.com/anthdm/hollywood/actor"
+	"google.golang.org/protobuf/proto"
 	"storj.io/drpc/drpcconn"
 	"storj.io/drpc/drpcmanager"
 	"storj.io/drpc/drpcwire"
@@ -70,6 +72,12 @@ func (s *streamWriter) Invoke(msgs []actor.Envelope) {
 			senderID int32
 			targetID int32
 		)
+		// Only protobuf messages can go over the wire, drop anything else
+		// instead of panicking in the serializer.
+		if _, ok := stream.msg.(proto.Message); !ok {
+			slog.Error("serialize", "err", "message is not a proto.Message", "type", fmt.Sprintf("%T", stream.msg))
+			continue
+		}
 		typeID, typeNames = lookupTypeName(typeLookup, s.serializer.TypeName(stream.msg), typeNames)
 		senderID, senders = lookupPIDs(senderLookup, stream.sender, senders)
 		targetID, targets = lookupPIDs(targetLookup, stream.target, targets)
